@@ -30,7 +30,7 @@ var xSamples = []struct {
 	{"BE", xlatesample.BE}, {"Str", xlatesample.Str}, {"Switch", xlatesample.Switch}, {"SwitchRet", xlatesample.SwitchRet},
 	{"IfMerge", xlatesample.IfMerge}, {"Swap", xlatesample.Swap}, {"RangeSum", xlatesample.RangeSum}, {"RangeMinMax", xlatesample.RangeMinMax},
 	{"Count", xlatesample.Count}, {"CountRet", xlatesample.CountRet}, {"Struct", xlatesample.Struct}, {"Ret0", xlatesample.Ret0},
-	{"Collect", xlatesample.Collect}, {"Make", xlatesample.Make}, {"Search", xlatesample.Search}, {"Widen", xlatesample.Widen}, {"SortDesc", xlatesample.SortDesc}, {"StrOrder", xlatesample.StrOrder}, {"LoopCut", xlatesample.LoopCut},
+	{"Collect", xlatesample.Collect}, {"Make", xlatesample.Make}, {"Search", xlatesample.Search}, {"Widen", xlatesample.Widen}, {"SortDesc", xlatesample.SortDesc}, {"StrOrder", xlatesample.StrOrder}, {"LoopCut", xlatesample.LoopCut}, {"FillPkt", xlatesample.FillPkt},
 }
 
 // pure samples with a `for { }` loop take fuel
@@ -57,6 +57,9 @@ func xGrid(t reflect.Type) []reflect.Value {
 				add(v)
 			}
 		}
+	case reflect.Bool:
+		add(false)
+		add(true)
 	case reflect.String:
 		for _, v := range []string{"", "tcp", "ssl", "s", "udp", "tcpx", "tc", "\xff", "tcq"} {
 			add(v)
@@ -115,6 +118,9 @@ func xCoqVal(v reflect.Value) string {
 	case reflect.Struct:
 		fs := []string{"Build_go_" + filepath.Base(v.Type().PkgPath()) + "_" + v.Type().Name()}
 		for i := 0; i < v.NumField(); i++ {
+			if v.Field(i).Kind() == reflect.Map { // outside the subset: not a member of the generated record
+				continue
+			}
 			fs = append(fs, xCoqVal(v.Field(i)))
 		}
 		return "(" + strings.Join(fs, " ") + ")"
